@@ -128,14 +128,16 @@ Record tcase := mkCase {
   tc_cfg : config;
   tc_samplers : option (list sampler);
   tc_rl : option (list sampler * nat);          (* RL scheduler: its samplers tuple (bootstrap included) and halton id *)
+  tc_rr : option (list sampler);                (* an explicitly constructed round-robin scheduler passed as `scheduler=` *)
   tc_ctor_exn : nat;                            (* observed constructor outcome: 0 = ok *)
   tc_ops : list (op * view)
 }.
 
 Definition check_case (c : tcase) : bool :=
-  let sc := match tc_rl c with
-            | Some (l, h) => Some (RL TLoss l h None true false 0)
-            | None => None end in
+  let sc := match tc_rl c, tc_rr c with
+            | Some (l, h), _ => Some (RL TLoss l h None true false 0)
+            | None, Some l => Some (RR TLoss (map unseeded l) 0)
+            | None, None => None end in
   match M_construct (tc_cfg c) (tc_samplers c) sc with
   | inr e => Nat.eqb (exn_code e) (tc_ctor_exn c)
   | inl s0 =>
@@ -145,7 +147,10 @@ Definition check_case (c : tcase) : bool :=
   end.
 
 Definition first_bad (c : tcase) : option nat :=
-  let sc := match tc_rl c with Some (l, h) => Some (RL TLoss l h None true false 0) | None => None end in
+  let sc := match tc_rl c, tc_rr c with
+            | Some (l, h), _ => Some (RL TLoss l h None true false 0)
+            | None, Some l => Some (RR TLoss (map unseeded l) 0)
+            | None, None => None end in
   match M_construct (tc_cfg c) (tc_samplers c) sc with
   | inr e => None
   | inl s0 => replay (tc_palette c) (tc_salt c) (tc_draws c) (tc_actions c) (tc_plan c) 0 s0 (tc_ops c)
